@@ -29,6 +29,15 @@ ASSUMPTIONS = [
     "`Interned::new_duplicating` the freshly decoded inner allocation is dropped together with the decoded payload when "
     "`intern` returns the live outer value, and a later reference to it misses (`expect` panics): finding F61, reproduced on "
     "every run by the harness probe `nested_boundary_probe`, fix proposal fixes/F61-decode-keeps-decoded-handles-alive.diff",
+    "the decoder-side interner of interned_roundtrip / interned_roundtrip_nested holds LIVE entries only: a dead weak entry "
+    "(value interned or decoded earlier, every handle dropped, no vacuum since) is modelled as an absent one, which is how "
+    "`intern`, `intern_unsized` and `get_from_hash` treat it in the code (C15's LTS has the dead entries and proves "
+    "`canonical` with them); interned_roundtrip_history states it explicitly — after any history the interner is "
+    "`aliveInterner` of the values alive — and the `history` stage checks it on the real interner: sequences of encode / "
+    "decode-and-keep / decode-and-drop / drop / vacuum on ONE long-lived interner over values with repeated unsized "
+    "(str, [u32], Path, [Interned<NNode>]) and sized handles, flat and nested; each decode step is compared line by line "
+    "with the model run against `aliveInterner` and judged by the oracle (no panic, decode == v, exact consumption, "
+    "sharing, handles equal to a live value are that value's allocations)",
     "interned_roundtrip_nested: same no-collision hypothesis as the flat theorem (`hinj`, over every handle payload at "
     "every depth and everything alive in the decoder-side interner); it is also what excludes a reference to a handle "
     "whose payload is still being decoded (the seen set gets the id BEFORE the payload, the interner AFTER it)",
